@@ -1,10 +1,13 @@
-"""The interpreter's run mode: `python -O`.
+"""The interpreter's run mode: `python -OO` (which includes -O).
 
 With -O (or PYTHONOPTIMIZE) the interpreter deletes every `assert` statement - including whatever work was done inside its expression.  A
 "sanity check" such as `assert pieces.pop(0).startswith("]")` is then a statement the library needs and production containers silently drop;
 under the ordinary interpreter nothing at all differs, for any input, option, history or schedule.
 
-This part re-runs the property's OWN quick check in a child `python -O` (same code, same oracles), on a coarser grid so that it costs seconds:
+With -OO the docstrings are gone as well (`__doc__` is None): code that builds on them at run time (`f.__doc__ += ...`, a usage text parsed from
+a docstring) fails at import.
+
+This part re-runs the property's OWN quick check in a child `python -OO` (same code, same oracles), on a coarser grid so that it costs seconds:
 every input space = its first 400 cases plus every 23rd afterwards, BFS parts to depth 1, no threads / encodings / second child.  The child's
 verdict is reported as one case of the parent; a violation quotes the child's first VIOLATION.  The child never claims exhaustiveness.
 
@@ -32,7 +35,7 @@ def _check(prop):
                VERIF_BFS_DEPTH_CAP="1", PYTHONDONTWRITEBYTECODE="1", PYTHONHASHSEED="1")
     env.pop("PYTHONOPTIMIZE", None)
     env.pop("PYTHONWARNINGS", None)
-    p = subprocess.run([sys.executable, "-O", "-W", "error", "-B", "-m", "mc.run", prop, "quick"], cwd=ROOT, env=env, stdout=subprocess.PIPE, stderr=subprocess.PIPE,
+    p = subprocess.run([sys.executable, "-OO", "-W", "error", "-B", "-m", "mc.run", prop, "quick"], cwd=ROOT, env=env, stdout=subprocess.PIPE, stderr=subprocess.PIPE,
                        text=True, timeout=1500)
     lines = p.stdout.splitlines()
     summary = [ln for ln in lines if ln.startswith("[" + prop + "]")]
@@ -44,7 +47,7 @@ def _check(prop):
         return max(n, 1), "ok", (prop, "python -O"), []
     k = next((i for i, ln in enumerate(lines) if ln.startswith("VIOLATION")), None)
     detail = " | ".join(x.strip() for x in lines[k + 1:k + 3]) if k is not None else (p.stderr or p.stdout)[-600:]
-    return 1, "!", None, [Viol("fails-under-python-O", f"the same quick check of {prop}, run by `python -O -W error` (assert statements deleted; warnings are errors) on a coarser grid, "
+    return 1, "!", None, [Viol("fails-under-python-O", f"the same quick check of {prop}, run by `python -OO -W error` (assert statements and docstrings deleted; warnings are errors) on a coarser grid, "
                                                        f"reports: {detail[:700]}")]
 
 
@@ -52,6 +55,6 @@ def part(prop):
     if os.environ.get("VERIF_CHILD"):
         return None
     return InputPart("interpreter-mode-python-O", lambda: [prop], _check,
-                     rule="the property's own quick check re-run in a child `python -O -W error` (assert statements and the work inside them deleted; every warning raised as an exception) on a coarser "
+                     rule="the property's own quick check re-run in a child `python -OO -W error` (assert statements, the work inside them and all docstrings deleted; every warning raised as an exception) on a coarser "
                           "grid: per input space the first 400 cases and every 23rd after them, BFS to depth 1, no thread / encoding children; the child "
                           "must exit 0", bounds={"stride": 23, "dense": 400, "bfs_depth": 1}, chunk=1)
